@@ -36,7 +36,7 @@ func (c19) Assumptions() []string {
 }
 func (c19) Required(tier string) []string {
 	return []string{"measured", "first-call-measured", "measured-after-failed-call", "path-float-exact", "path-float-eisel-lemire", "path-float-long-mantissa", "path-float-halfway", "path-float-subnormal", "path-int-18", "path-int-19", "path-int-20",
-		"path-string-escapes", "path-string-surrogate-pair", "path-depth-equals-warmed", "path-decode-null", "handler-consume", "handler-decline", "handler-nested-per-level-buffers", "dst-slack-0"}
+		"path-string-escapes", "path-string-surrogate-pair", "path-depth-equals-warmed", "path-decode-null", "handler-consume", "handler-decline", "handler-nested-per-level-buffers", "dst-slack-0", "dst-aliases-input", "dst-in-same-arena-as-input", "P-evict-by-GC"}
 }
 
 var c19Floats = map[string][]string{
@@ -171,7 +171,7 @@ func (c19) Gen(r *Rand, sc *Scenario, tier string) {
 			d = docOf(mutateDoc(r, d.Bytes()), d.Class+"-mut")
 		}
 		sc.Docs = append(sc.Docs, d)
-		op := Op{Kind: fn, Doc: i, A: r.Intn(4), B: []int{0, 0, 1, 3, 16}[r.Intn(5)], C: []int{0, 0, 3, 40}[r.Intn(4)]}
+		op := Op{Kind: fn, Doc: i, A: r.Intn(4), B: []int{0, 0, 1, 3, 16}[r.Intn(5)], C: []int{0, 0, 3, 40, 11, 8}[r.Intn(6)]}
 		if op.A == 2 {
 			op.Tape = genDecisionTape(r, r.Range(1, 70), false)
 		}
@@ -459,6 +459,49 @@ func (c19) Exec(sc *Scenario, st *Stats) *Violation {
 			if op.B == 0 {
 				st.probe("dst-slack-0")
 			}
+			aliased := false
+			switch {
+			case op.A == 3 && op.Kind == "UnescapeStringContent":
+				// the destination is the front of the input's own backing array (in-place unescaping):
+				// it has the capacity the property asks for. The call consumes its input, so only the
+				// first call is measured and only allocations are judged.
+				data = append([]byte(nil), data...)
+				x.dst = data[:0]
+				aliased = true
+				st.probe("dst-aliases-input")
+			case op.A == 2:
+				// arena layout: input and destination are neighbours in one backing array
+				arena := make([]byte, 2*len(data)+op.B+16)
+				n := copy(arena, data)
+				data = arena[:n:n]
+				x.dst = arena[n:n]
+				st.probe("dst-in-same-arena-as-input")
+			}
+			if aliased {
+				var a, b runtime.MemStats
+				orig := append([]byte(nil), data...)
+				best := ^uint64(0)
+				okAll := true
+				for attempt := 0; attempt < 4 && best != 0; attempt++ {
+					copy(data, orig)
+					runtime.ReadMemStats(&a)
+					ok := c19call(op.Kind, x, data)
+					runtime.ReadMemStats(&b)
+					okAll = okAll && ok
+					if d := b.Mallocs - a.Mallocs; d < best {
+						best = d
+					}
+				}
+				if okAll {
+					st.probe("measured")
+					st.probe("first-call-measured")
+					if best != 0 {
+						return &Violation{Class: "allocates", Task: 0, Op: oi, Sig: "C19/allocates-first-call/" + op.Kind + "/in-place",
+							Detail: fmt.Sprintf("call %d, %s in place (destination = input[:0]) on %q: %d heap allocations", oi, op.Kind, clip(string(orig), 80), best)}
+					}
+				}
+				continue
+			}
 		}
 		if isDocFn && warmDepth < depth {
 			// could not be warmed (e.g. beyond the depth limit): executed, not measured
@@ -471,6 +514,10 @@ func (c19) Exec(sc *Scenario, st *Stats) *Violation {
 		// The FIRST call after the preconditions hold is measured on its own: the property does
 		// not grant a warm-up call of the same function. Resource shapes (stack len/cap, dst
 		// len/cap) are recorded so that a suspicious measurement can be repeated on an identical state.
+		gcFirst := op.C%8 == 3
+		if gcFirst {
+			st.fault("P-evict-by-GC")
+		}
 		sl, sc0 := len(buf.VerifStack()), cap(buf.VerifStack())
 		dl, dc := len(x.dst), cap(x.dst)
 		ok := false
@@ -486,6 +533,12 @@ func (c19) Exec(sc *Scenario, st *Stats) *Violation {
 					copy(nd, dstBacking[:dl])
 					x.dst = nd[:dl:dc]
 				}
+			}
+			if gcFirst {
+				// two GC cycles empty every sync.Pool (what happens between two uses in a real program):
+				// the call must not depend on scratch kept in a pool. Repeated before every attempt.
+				runtime.GC()
+				runtime.GC()
 			}
 			func() {
 				defer func() {
